@@ -108,6 +108,101 @@ func containsConnClose(n ast.Node) bool {
 	return containsCall(n, ".conn.Close") || containsCall(n, ".abortRead")
 }
 
+// threadedWrappers: package-level functions `f(r *bufio.Reader, size int, …) (…, int, …)` that are byte-accounting
+// wrappers of a primitive: the reader is used exactly once, as the first argument of a primitive (or of another such
+// wrapper) called with the size parameter; the remaining-size result of that call is bound to a variable that is
+// assigned nowhere else, and every return hands that variable back at the position of the int result.  Such a function
+// consumes and accounts bytes exactly like the primitive it wraps (Model/WireProg.lean `Prim`), whatever else it does
+// to the value read (e.g. readMessageBytes: nil → empty slice).
+func (f *facts) threadedWrappers(files []*ast.File, prims map[string]bool) map[string]bool {
+	out := map[string]bool{}
+	for changed := true; changed; {
+		changed = false
+		for _, file := range files {
+			if file == nil {
+				continue
+			}
+			for _, d := range file.Decls {
+				fd, ok := d.(*ast.FuncDecl)
+				if !ok || fd.Body == nil || fd.Recv != nil || prims[fd.Name.Name] || out[fd.Name.Name] || fd.Type.Results == nil {
+					continue
+				}
+				ps := paramNames(fd.Type)
+				if len(ps) < 2 || len(fd.Type.Params.List) < 2 || !strings.Contains(src(f.fset, fd.Type.Params.List[0].Type), "bufio.Reader") {
+					continue
+				}
+				rd, sz := ps[0], ps[1]
+				// position of the int result
+				intAt, k := -1, 0
+				for _, r := range fd.Type.Results.List {
+					n := len(r.Names)
+					if n == 0 {
+						n = 1
+					}
+					for i := 0; i < n; i++ {
+						if src(f.fset, r.Type) == "int" && intAt < 0 {
+							intAt = k
+						}
+						k++
+					}
+				}
+				if intAt < 0 {
+					continue
+				}
+				remainVar, calls, okUses := "", 0, map[ast.Node]bool{}
+				assigns := map[string]int{}
+				ast.Inspect(fd.Body, func(n ast.Node) bool {
+					as, isAs := n.(*ast.AssignStmt)
+					if !isAs {
+						return true
+					}
+					for _, l := range as.Lhs {
+						if id, isID := l.(*ast.Ident); isID {
+							assigns[id.Name]++
+						}
+					}
+					if len(as.Rhs) == 1 {
+						if c, isC := as.Rhs[0].(*ast.CallExpr); isC && len(c.Args) >= 2 {
+							if id, isID := c.Fun.(*ast.Ident); isID && (prims[id.Name] || out[id.Name]) &&
+								src(f.fset, c.Args[0]) == rd && src(f.fset, c.Args[1]) == sz && len(as.Lhs) >= 2 {
+								calls++
+								okUses[c.Args[0]] = true
+								// the remaining size is the int result of the primitive: the last-but-one result by convention (…, remain, err)
+								if id2, isID2 := as.Lhs[len(as.Lhs)-2].(*ast.Ident); isID2 {
+									remainVar = id2.Name
+								}
+							}
+						}
+					}
+					return true
+				})
+				if calls != 1 || remainVar == "" || assigns[remainVar] != 1 {
+					continue
+				}
+				good := true
+				ast.Inspect(fd.Body, func(n ast.Node) bool {
+					switch x := n.(type) {
+					case *ast.Ident:
+						if x.Name == rd && !okUses[x] {
+							good = false
+						}
+					case *ast.ReturnStmt:
+						if len(x.Results) <= intAt || src(f.fset, x.Results[intAt]) != remainVar {
+							good = false
+						}
+					}
+					return true
+				})
+				if good {
+					out[fd.Name.Name] = true
+					changed = true
+				}
+			}
+		}
+	}
+	return out
+}
+
 func containsCall(n ast.Node, suffix string) bool {
 	found := false
 	ast.Inspect(n, func(x ast.Node) bool {
@@ -413,6 +508,9 @@ func extractMuxFacts(repo, root string) error {
 	if mr != nil {
 		prims := map[string]bool{"readInt8": true, "readInt16": true, "readInt32": true, "readInt64": true, "readVarInt": true,
 			"readBytesWith": true, "readNewBytes": true, "readNewString": true, "discardN": true, "discardBytes": true}
+		for w := range f.threadedWrappers([]*ast.File{batch, mr, f.files["read.go"]}, prims) {
+			prims[w] = true
+		}
 		threaded, limited, limitedOK, callbacks := 0, 0, 0, 0
 		var others, badRemain []string
 		for _, d := range mr.Decls {
@@ -516,6 +614,7 @@ func extractMuxFacts(repo, root string) error {
 	// ---- batch.go: the key/value callbacks touch the reader they are given only through readNewBytes / discardN / io.ReadFull
 	if batch != nil {
 		n, bad := 0, []string{}
+		cbWrappers := f.threadedWrappers([]*ast.File{batch, mr, f.files["read.go"]}, map[string]bool{"readNewBytes": true, "discardN": true})
 		ast.Inspect(batch, func(x ast.Node) bool {
 			fl, isLit := x.(*ast.FuncLit)
 			if !isLit {
@@ -530,7 +629,7 @@ func extractMuxFacts(repo, root string) error {
 			ast.Inspect(fl.Body, func(y ast.Node) bool {
 				if c, isC := y.(*ast.CallExpr); isC && len(c.Args) >= 1 {
 					p := selPath(c.Fun)
-					if (p == "readNewBytes" || p == "discardN" || p == "io.ReadFull") && src(f.fset, c.Args[0]) == ps[0] {
+					if (p == "readNewBytes" || p == "discardN" || p == "io.ReadFull" || cbWrappers[p]) && src(f.fset, c.Args[0]) == ps[0] {
 						okUse[c.Args[0]] = true
 					}
 				}
